@@ -171,6 +171,19 @@ pub fn record_c01(out: &str, proc_id: usize, nitems: usize) {
                     Err(e) => { sum.vectors += 1; put(&mut f, format!("run {gkey} {}", item.lines[order[0]]), 0, ncall, format!("ERR-LIST {e}")); }
                 }
             }
+            // ... and "in which order the words are supplied": every ordered pair of the item's single-word lines (the same key as the word alone)
+            if binds {
+                let singles_only: Vec<&String> = item.lines.iter().filter(|l| !l.contains(' ')).take(5).collect();
+                for a in &singles_only { for b in &singles_only {
+                    if a == b { continue; }
+                    ncall += 1;
+                    if let Ok(o) = run(&[(*a).clone(), (*b).clone()]) {
+                        sum.vectors += 2; sum.count("ordered_pairs", 1);
+                        put(&mut f, format!("run {gkey} {a}"), 0, ncall, o[0].clone());
+                        put(&mut f, format!("run {gkey} {b}"), 1, ncall, o[1].clone());
+                    }
+                } }
+            }
         }
         for (pos, l) in item.lines.iter().enumerate() {
             ncall += 1; sum.vectors += 1;
